@@ -1,6 +1,7 @@
 package main
 
 import (
+	"bytes"
 	"bufio"
 	"encoding/json"
 	"fmt"
@@ -127,14 +128,23 @@ func (d *coreDriver) emit(ev map[string]interface{}) {
 	d.lines++
 }
 
+// the header bytes as they were right after creation ("the header bytes never change after creation")
+var diskHeader0 = map[string][]byte{}
+
 func diskSparse(path string, m Mapping) ([][][]interface{}, int, error) {
 	buf, err := ioutil.ReadFile(path)
 	if err != nil {
 		return nil, 0, err
 	}
-	_, rings, err := decodeFile(buf)
+	h, rings, err := decodeFile(buf)
 	if err != nil {
 		return nil, len(buf), err
+	}
+	hl := 16 + 12*len(h.Archs)
+	if h0, ok := diskHeader0[path]; !ok {
+		diskHeader0[path] = append([]byte(nil), buf[:hl]...)
+	} else if !bytes.Equal(h0, buf[:hl]) {
+		return nil, len(buf), fmt.Errorf("the header bytes changed after creation: %x, were %x", buf[:hl], h0)
 	}
 	return m.sparseOf(rings), len(buf), nil
 }
@@ -166,6 +176,7 @@ func (d *coreDriver) oneTrace(id int) error {
 	now := maxRet + 2*lay[len(lay)-1].Step + 1000 + rnd.Int63n(5000)
 	path := filepath.Join(d.dir, fmt.Sprintf("t%d.wsp", id))
 	defer os.Remove(path)
+	delete(diskHeader0, path)
 
 	ail := make([]wt.ArchiveInfo, k)
 	for i, a := range lay {
